@@ -306,6 +306,46 @@ impl Ctx {
 		}
 	}
 
+	/// Replay tier for enumerated sub-checks: `f` gets the saved case as JSON.
+	pub fn run_saved_values(&mut self, name: &str, f: &dyn Fn(&Value, &mut Obs) -> PropResult) {
+		let saved: Vec<_> = self.saved.iter().filter(|(_, sub, _)| sub == name).cloned().collect();
+		for (path, _, value) in saved {
+			let fname = path.file_name().and_then(|f| f.to_str()).unwrap_or("").to_string();
+			self.replayed += 1;
+			let known = fname.strip_prefix("known-").and_then(|f| f.strip_suffix(".json")).and_then(|id| self.findings.findings.iter().find(|f| f.id == id).cloned());
+			match known {
+				Some(finding) if finding.status == "open" => {
+					let mut obs = self.new_obs();
+					obs.strict = true;
+					match no_panic(|| f(&value, &mut obs)).and_then(|r| r) {
+						Err(_) => self.known_lines.push(format!("{} [{}]", finding.what, finding.id)),
+						Ok(()) => eprintln!("note: open finding {} no longer reproduces from {path:?}", finding.id),
+					}
+				}
+				_ => {
+					let mut obs = self.new_obs();
+					if let Err(reason) = no_panic(|| f(&value, &mut obs)).and_then(|r| r) {
+						self.violations.push(Violation { sub: name.to_string(), reason, replay: path.clone() });
+					}
+				}
+			}
+		}
+	}
+
+	/// In replay mode: the case addressed to sub-check `name`, if any.
+	pub fn replay_case(&self, name: &str) -> Option<Value> {
+		match &self.replay {
+			Some((sub, v)) if sub == name => Some(v.clone()),
+			_ => None,
+		}
+	}
+	pub fn in_replay(&self) -> bool {
+		self.replay.is_some()
+	}
+	pub fn push_violation(&mut self, sub: &str, reason: String) {
+		self.violations.push(Violation { sub: sub.to_string(), reason, replay: PathBuf::new() });
+	}
+
 	pub fn assume(&mut self, s: &str) {
 		self.assumptions.push(s.to_string());
 	}
@@ -661,6 +701,9 @@ impl EnumRec {
 		for (k, v) in labels {
 			*self.stats.labels.entry(k.clone()).or_insert(0) += v;
 		}
+	}
+	pub fn masked(&mut self, id: &str, n: u64) {
+		*self.stats.masked.entry(id.to_string()).or_insert(0) += n;
 	}
 	pub fn sample(&mut self, v: Value) {
 		if self.stats.samples.len() < 4 {
